@@ -26,6 +26,18 @@ CHECKS = {
    technique='stateless model checking of the instrumented real code plus vector-clock happens-before race detection on every TaskLane field',
    text='Panicking tasks with values of different dynamic types on several workers, Status() polled concurrently: every explored interleaving is checked for field-level data races, for pending counts inside [0, L*(Q+1)] and, at rest, for PendingTask == accepted - started and LastPanic being one of the panicked values.',
    note=S_NOTE),
+ 'C12': dict(engine='vsched', cat='model_checking', ref='4 (C12), 2.2',
+   technique='stateless model checking of the instrumented real code (list size reduced to 3 so the list->maps migration is reachable) plus vector-clock race detection on every IPv4Filter field',
+   text='Writers owning their ranges (crossing the migration, toggling 0.0.0.0/0) and readers; every interleaving at RWMutex and atomic operations; call/return instants are monitor events so every real-time order is explored; oracle is the statement itself (true required if one range present throughout the call, false required if none present at any time), final agreement with the per-goroutine sequential model on boundary probes, no race, no panic.',
+   note=S_NOTE + ' netutil is rebuilt with listSize=3 by constant override; if the constant disappears the check reports INFRA-ERROR rather than passing vacuously.'),
+ 'C19': dict(engine='vsched', cat='model_checking', ref='4 (C19), 2.2',
+   technique='stateless model checking of the instrumented real code: call sequences are free choices enumerated together with all writer/consumer interleavings (unbounded)',
+   text='All 518 call sequences (<=3 calls x Write/WriteString x full/short/failing underlying writer x StringWriter or not) crossed with all interleavings of the writer and a consumer draining Status(); invariant at every scheduling step: the writer is never disabled inside Write/WriteString; oracles: Size() equals the sum reported, received values are non-decreasing prefix sums, after Close the last value is the total and the channel is closed.',
+   note=S_NOTE),
+ 'C02': dict(engine='vsched', cat='model_checking', ref='4 (C02), 2.2',
+   technique='stateless model checking of the instrumented real logger: all interleavings at pool get/put, outMu and inside the destination Write, differential oracle against the same record logged alone',
+   text='For each of the three handlers, 2-3 goroutines x 1-3 operations (root log, pre-derived child log, derive-then-log, below threshold, 20 KiB record, formatted log); Write begin/end are monitor events (no overlap may ever be observed), the multiset of chunks must equal byte-for-byte the lines produced by each call alone on a fresh handler, per-goroutine order preserved, nothing written below the threshold, no field-level race.',
+   note=S_NOTE),
 }
 
 NA_REASON = 'check not built yet (work in progress; see DESIGN.md section 4)'
